@@ -135,4 +135,69 @@ theorem length_le (k n : Nat) : (le k n).length = k := by
   | zero => rfl
   | succ k ih => simp [le, ih]
 
+/-! ## whole frames: chunking -/
+
+theorem chunksAux_flatMap {α : Type} (n : Nat) (g : α → List Nat) :
+    ∀ (qs : List α), (∀ q ∈ qs, (g q).length = n) → chunksAux n qs.length (qs.flatMap g) = qs.map g := by
+  intro qs
+  induction qs with
+  | nil => intro _; rfl
+  | cons q qs ih =>
+    intro h
+    have hq := h q (by simp)
+    simp only [List.length_cons, List.flatMap_cons, List.map_cons, chunksAux]
+    rw [List.take_left' hq, List.drop_left' hq, ih (fun q' hq' => h q' (by simp [hq']))]
+
+theorem length_flatMap_const {α : Type} (n : Nat) (g : α → List Nat) :
+    ∀ (qs : List α), (∀ q ∈ qs, (g q).length = n) → (qs.flatMap g).length = n * qs.length := by
+  intro qs
+  induction qs with
+  | nil => intro _; simp
+  | cons q qs ih =>
+    intro h
+    simp only [List.flatMap_cons, List.length_append, List.length_cons, h q (by simp),
+      ih (fun q' hq' => h q' (by simp [hq']))]
+    ring
+
+theorem chunks_flatMap {α : Type} (n : Nat) (hn : 0 < n) (g : α → List Nat) (qs : List α)
+    (h : ∀ q ∈ qs, (g q).length = n) : chunks n (qs.flatMap g) = qs.map g := by
+  unfold chunks
+  rw [if_neg (by omega), length_flatMap_const n g qs h, Nat.mul_div_cancel_left _ hn]
+  exact chunksAux_flatMap n g qs h
+
+theorem mem_of_mem_chunksAux (n : Nat) : ∀ (k : Nat) (l q : List Nat) (b : Nat),
+    q ∈ chunksAux n k l → b ∈ q → b ∈ l := by
+  intro k
+  induction k with
+  | zero => intro l q b h; simp [chunksAux] at h
+  | succ k ih =>
+    intro l q b h hb
+    simp only [chunksAux, List.mem_cons] at h
+    rcases h with rfl | h
+    · exact List.mem_of_mem_take hb
+    · exact List.mem_of_mem_drop (ih _ _ _ h hb)
+
+theorem mem_of_mem_chunks (n : Nat) (l q : List Nat) (b : Nat) (h : q ∈ chunks n l) (hb : b ∈ q) :
+    b ∈ l := by
+  unfold chunks at h
+  split at h
+  · simp at h
+  · exact mem_of_mem_chunksAux n _ l q b h hb
+
+theorem ofList_valid (q : List Nat) (h : ∀ b ∈ q, b < 256) : (Px.ofList q).valid := by
+  have g : ∀ i, q.getD i 0 < 256 := by
+    intro i
+    simp only [List.getD_eq_getElem?_getD]
+    cases hi : q[i]? with
+    | none => simp
+    | some b => simpa using h b (List.mem_of_getElem? hi)
+  exact ⟨g 0, g 1, g 2, g 3⟩
+
+theorem flatMap_congr' {α β : Type} (l : List α) (f g : α → List β) (h : ∀ a ∈ l, f a = g a) :
+    l.flatMap f = l.flatMap g := by
+  induction l with
+  | nil => rfl
+  | cons a l ih =>
+    simp only [List.flatMap_cons, h a (by simp), ih (fun a' ha' => h a' (by simp [ha']))]
+
 end C15
